@@ -90,7 +90,7 @@ func c06Files() []c06File {
 		{"no-imports", "", ""},
 	}
 	body := func(pkgfmt string) string {
-		return "// S is a struct.\ntype S struct {\n\tA int `json:\"a\"`\n}\n\ntype Alias S\n\nconst C = 1\n\n// F does things.\nfunc F(a int, b string) (int, error) {\n\tx := a + 1 // trailing\n\tif x > 2 {\n\t\t" + pkgfmt + "Println(x, b)\n\t}\n\ts := append([]int{}, x)\n\t_ = s\n\tspread(s...)\n\tfor range s {\n\t\t_ = x\n\t}\n\treturn x, nil\n}\n\ntype Alias2 = S\n\nvar (\n\tG = 1\n)\n"
+		return "// S is a struct.\ntype S struct {\n\tA int `json:\"a\"`\n}\n\ntype Alias S\n\nconst C = 1\n\n// F does things.\nfunc F(a int, b string) (int, error) {\n\tx := a + 1 // trailing\n\tif x > 2 {\n\t\t" + pkgfmt + "Println(x, b)\n\t}\n\ts := append([]int{}, x)\n\t_ = s\n\tspread(s...)\n\tother.Nomatch()\n\tother.Nomatch(1)\n\tfor range s {\n\t\t_ = x\n\t}\n\treturn x, nil\n}\n\ntype Alias2 = S\n\nvar (\n\tG = 1\n)\n"
 	}
 	var out []c06File
 	for _, b := range bases {
